@@ -1,6 +1,7 @@
 package types
 
 import (
+	"bytes"
 	"io"
 	"strconv"
 
@@ -175,6 +176,21 @@ func (t *CallableType) Equals(o interface{}, g px.Guard) bool {
 			optTypeEquals(t.blockType, ot.blockType, g)
 	}
 	return false
+}
+
+// ToKey writes the three parts that Equals compares, an absent one as undef. The parameter list alone does not tell
+// equal types from unequal ones: it leaves out Unit parameters and the size of a parameter Tuple that was not given
+func (t *CallableType) ToKey(b *bytes.Buffer) {
+	b.WriteByte(1)
+	b.WriteByte(HkType)
+	appendElementKey(b, stringValue(t.Name()))
+	for _, p := range []px.Type{t.paramsType, t.returnType, t.blockType} {
+		if p == nil {
+			appendElementKey(b, undef)
+		} else {
+			appendElementKey(b, p)
+		}
+	}
 }
 
 // optTypeEquals compares two types either of which may be absent
